@@ -880,3 +880,90 @@ def inh_worker(task):
     cl.close()
     res["nontrivial"] = sorted(res["nontrivial"])
     return res
+
+
+# ---------------------------------------------------------------- Miri tier (thorough C01 / C18)
+def miri_tier(check, pid, n_ops=300, profiles=("array", "optional", "inherit", "payload")):
+    """A small corpus run under `cargo +nightly miri run`: the interpreter checks every executed
+    operation for undefined behaviour (the generated code and pdl-runtime are safe Rust; what Miri
+    watches is the `bytes` internals they drive: BytesMut growth / freeze, Buf cursor arithmetic)
+    and its answers are compared with the native harness' answers on the same requests.
+    -> coverage dict; violations are added to check."""
+    import os
+    import subprocess
+    import tempfile
+    from ..engines import build
+    descs = [d for d in corpus.descriptions(check.seed, 1, list(profiles)) if A.endianness(d["file"]) == A.LE]
+    rc = RustCorpus("miri-s%d" % check.seed, descs)
+    rc.generate()
+    rc.build("dev")
+    cl = rc.client("dev")
+    reqs = []
+    rng = random.Random("miri/%d" % check.seed)
+    per_desc = max(8, n_ops // max(1, len(rc.live)))
+    for d in rc.live:
+        m = Model(d["file"])
+        k = 0
+        for tid in types_of(m.file):
+            vg = ValueGen(m, rng, max_array=6, max_payload=8)
+            vals = vg.valid_values(tid, 3)
+            for v, enc in vals[:2]:
+                reqs.append({"d": d["name"], "t": tid, "op": "enc", "value": v})
+                k += 1
+            for b, tag in inputs_for(m, tid, vals, rng, 6):
+                if len(b) <= 64:
+                    reqs.append({"d": d["name"], "t": tid, "op": "dec", "hex": b.hex()})
+                    k += 1
+            if k >= per_desc:
+                break
+    reqs = reqs[:n_ops]
+    native = []
+    for i, q in enumerate(reqs):
+        native.append(cl.call(dict(q, cap=CAP)))
+    cl.close()
+    path = os.path.join(rc.dir, "miri-in.jsonl")
+    with open(path, "w") as f:
+        for i, q in enumerate(reqs):
+            f.write(json.dumps(dict(q, id=i + 1)) + "\n")
+    env = dict(build.ENV)
+    env["MIRIFLAGS"] = "-Zmiri-disable-isolation"
+    target = os.path.join(build.WORK, "target-" + build._repo_tag() + "-miri")
+    t0 = __import__("time").time()
+    with build.Lock("build-miri"):
+        p = subprocess.run(["cargo", "+nightly", "miri", "run", "--offline", "-q", "-p", "harness-" + rc.tag,
+                            "--manifest-path", os.path.join(rc.dir, "Cargo.toml"), "--target-dir", target],
+                           stdin=open(path), stdout=subprocess.PIPE, stderr=subprocess.PIPE, env=env, timeout=3 * 3600)
+    wall = __import__("time").time() - t0
+    out = p.stdout.decode("utf-8", "replace").strip().split("\n")
+    err = p.stderr.decode("utf-8", "replace")
+    answers = []
+    for ln in out:
+        try:
+            answers.append(json.loads(ln))
+        except ValueError:
+            pass
+
+    def norm(r):
+        if isinstance(r, dict):
+            return {k: norm(v) for k, v in r.items() if k not in ("ns", "alloc_peak", "alloc_largest", "elapsed", "id", "loc")}
+        if isinstance(r, list):
+            return [norm(x) for x in r]
+        return r
+    ub = "Undefined Behavior" in err or "error: unsupported operation" in err
+    if ub or (p.returncode != 0 and len(answers) < len(reqs)):
+        k = len(answers)
+        kind = "miri-undefined-behaviour" if "Undefined Behavior" in err else "miri-run-died"
+        first = next((ln for ln in err.split("\n") if ln.startswith("error")), err[:200])
+        if "Undefined Behavior" in err:
+            check.violation("%s|rust|%s|%s" % (pid, kind, norm_msg(first)),
+                            {"request": reqs[k] if k < len(reqs) else None, "miri_stderr": err[-3000:]})
+        else:
+            raise common.Inconclusive("miri run failed: " + err[-1500:])
+    diff = 0
+    for q, a, b in zip(reqs, native, answers):
+        if norm(a) != norm(b):
+            diff += 1
+            check.violation("%s|rust|miri-answer-differs-from-native|%s" % (pid, q["op"]),
+                            {"request": q, "native": norm(a), "miri": norm(b)})
+    return {"miri_operations": len(answers), "miri_descriptions": len(rc.live), "miri_wall_s": round(wall, 1),
+            "miri_answers_equal_to_native": len(answers) - diff, "miri_ub_reports": 1 if "Undefined Behavior" in err else 0}
